@@ -277,6 +277,10 @@ def leaf_holds(t, key, value, source_doc=None):
     return (m is True), exact(call, p, args, kwargs)
 
 
+def is_null(t):
+    return t[0] == "null" or (t[0] in ("and", "or", "xor") and is_null(t[1]) and is_null(t[2]))
+
+
 def eval_cond(t, key, value, source_doc=None):
     """-> (bool, exact?) for a condition tree on one item."""
     tag = t[0]
@@ -284,6 +288,11 @@ def eval_cond(t, key, value, source_doc=None):
         return True, True
     if tag == "leaf":
         return leaf_holds(t, key, value, source_doc)
+    # null is the identity of and / or / xor alike (C02)
+    if is_null(t[1]):
+        return eval_cond(t[2], key, value, source_doc)
+    if is_null(t[2]):
+        return eval_cond(t[1], key, value, source_doc)
     a, ea = eval_cond(t[1], key, value, source_doc)
     b, eb = eval_cond(t[2], key, value, source_doc)
     r = {"and": a and b, "or": a or b, "xor": a != b}[tag]
